@@ -227,7 +227,7 @@ pub struct SCase {
 }
 pub fn gen_sample(t: &mut Tape, tier: Tier) -> Option<SCase> {
     let mo = if t.bool() { 1.0 / 64.0 } else { 0.15 };
-    let mut p = gen::gen_phys(t, &PhysOpts { max_e: tier.pick(7, 8), max_l: 5, min_omega: mo, dmax: 4, max_ops: 3, profile: gen::CORNERS })?;
+    let mut p = gen::gen_phys(t, &PhysOpts { max_e: tier.pick(7, 8), max_l: 8, min_omega: mo, dmax: 4, max_ops: 3, profile: gen::CORNERS })?;
     // sprinkle exact zeros / extremes over all coordinates
     let n = p.x.len();
     let k = t.below(4);
